@@ -111,6 +111,26 @@ def _cond(val, cond):
     return val == unjson(cond)
 
 
+def raised_in_production(tb_text):
+    """does a traceback (including a remote traceback forwarded from a worker) pass through nuspacesim source?"""
+    import re
+
+    return bool(re.search(r'File "[^"]*/nuspacesim/[^"]*\.py"', tb_text))
+
+
+def replay_explorer(module, case):
+    """generic replay for an exploration that was aborted by a production exception: run the explorer again"""
+    import traceback
+
+    ctx = Ctx(module.PID, case.get("tier", "quick"), int(case.get("seed", 0)), module)
+    try:
+        module.run(ctx)
+    except Exception as ex:
+        if raised_in_production(traceback.format_exc()):
+            return [("production_code_raised_during_exploration", "no exception from production code", f"{type(ex).__name__}: {str(ex)[:160]}")]
+    return []
+
+
 class Findings:
     def __init__(self):
         self.entries = []
@@ -216,6 +236,18 @@ class Ctx:
             if per_clause.get(clause, 0) >= MAX_STORED_PER_CLAUSE:
                 continue
             jcase = jsonable(case)
+            if isinstance(case, dict) and case.get("kind") == "__explorer__":
+                r1 = replay_explorer(self.module, case)
+                if clause in {c for c, _, _ in r1}:
+                    per_clause[clause] = 1
+                    d = REPLAY_DIR / self.pid
+                    d.mkdir(parents=True, exist_ok=True)
+                    p = d / "explorer_aborted.json"
+                    p.write_text(json.dumps({"property": self.pid, "clause": clause, "case": jcase, "expected": jsonable(exp), "observed": jsonable(obs), "tier": self.tier, "seed": self.seed}, indent=1))
+                    reported.append((clause, p, exp, obs))
+                else:
+                    harness_errors.append("explorer aborted by an exception that did not recur")
+                continue
             try:
                 r1 = self.module.replay(unjson(json.loads(json.dumps(jcase))))
                 if clause not in {c for c, _, _ in r1} and id(case) in self.alts:
@@ -315,7 +347,7 @@ def _short(x, n=200):
 def run_replay(module, path):
     rec = json.loads(Path(path).read_text())
     case = unjson(rec["case"])
-    res = module.replay(case)
+    res = replay_explorer(module, case) if isinstance(case, dict) and case.get("kind") == "__explorer__" else module.replay(case)
     clauses = sorted({c for c, _, _ in res})
     if res:
         for c, e, o in res:
